@@ -5,6 +5,7 @@ import NutsModel.C03.Jws
 import NutsModel.C03.Api
 import NutsModel.C03.FsList
 import NutsModel.C03.External
+import NutsModel.C03.Configure
 import NutsModel.Facts.C03
 open Lean Nuts.Drv Nuts.C03 Nuts
 
@@ -238,6 +239,34 @@ def step (st : St) (j : Json) : St × List String :=
         s!" verifies=[K{k}] jwk={jwk}")
     (st, ["dpopseq " ++ String.intercalate " | " (rs.map showOne) ++ showAudit []])   -- SignDPoP writes no audit record
   | "apiencval" => (st, ["apiencval " ++ showApi (apiEncryptValidate apiCfg (parseApiReq j))])
+  | "configure" =>
+    -- (*Crypto).Configure on a new engine: which backend is installed, is it the validating wrapper, where do names go
+    let opt (k : String) : Option String := if jStr j k == "" then none else some (jStr j k)
+    let lk : Lookup := match jStr j "vLookup" with
+      | "data" => .data | "empty" => .emptyData | "nil" => .nilSecret | _ => .err (jStr j "vLookupErr")
+    let ctorRes (c : String) : Ctor :=
+      if c == "fs.NewFileSystemBackend" then (match opt "fsErr" with | some e => .err e | none => .ok)
+      else if c == "external.NewAPIClient" then externalNew (opt "extErr")
+      else if c == "azure.New" then azureNew Nuts.Facts.C03.azureCredentialTypes (jStr j "azUrl") (jStr j "azCred") (opt "azSdkErr") none
+      else if c == "vault.NewVaultKVStorage" then vaultNew (opt "vClientErr") lk
+      else .err ("unknown constructor " ++ c)
+    let (be, err) := configureSt Nuts.Facts.C03.configureSwitch Nuts.Facts.C03.setupFns none (jStr j "storage") (jBool j "strict") ctorRes
+    let innerT (c : String) : String :=
+      if c == "fs.NewFileSystemBackend" then "*fs.fileSystemBackend" else if c == "external.NewAPIClient" then "*external.APIClient"
+      else if c == "azure.New" then "*azure.Keyvault" else if c == "vault.NewVaultKVStorage" then "vault.vaultKVStorage" else c
+    let res := match err with | none => "ok" | some t => "err:" ++ t
+    let b := match be with
+      | none => "backend=nil"
+      | some b =>
+        let name := jStr j "probe"
+        let fw := forwarded validStr b name
+        let remote := b.ctor == "external.NewAPIClient" || b.ctor == "vault.NewVaultKVStorage"
+        let probe := if jStr j "probe" == "" && !jHas j "probe" then "probe=skip"
+          else if !fw then "probe=refused reqs=0"
+          else if b.ctor == "fs.NewFileSystemBackend" then s!"probe=forwarded reqs=0 file={Nuts.Facts.C03.fsBackendSubdir}/{name}_{(Nuts.Facts.C03.fsEntryTypesStr.head?).getD "?"}"
+          else s!"probe=forwarded reqs={if remote then 1 else 0}"
+        s!"backend=wrapped:{backendValidates b} inner={innerT b.ctor} {probe}"
+    (st, [s!"configure res={res} {b}"])
   | o => (st, ["bad-op:" ++ o])
 
 end Nuts.Drv.C03
